@@ -24,6 +24,7 @@ type Profile struct {
 	DupTx       bool    // include a transaction twice in the chain (shared transaction id)
 	Exhaust     bool    // delete until the block cache is empty
 	ValidatorCh bool    // include a validator change
+	RestartBias float64 // probability per script step of an additional restart followed directly by guard probes
 }
 
 // Recorder drives a real node and writes the operation lines.
@@ -281,7 +282,16 @@ func (r *Recorder) PV(b *blockchain.Block, removeTemp bool) bool {
 		return false
 	}
 	tipBefore := n.Tip().Header.ID
+	// half of the blocks are applied with the syncying flag set, as the synchronisers apply them
+	// (Executer.process sets the flag around syncer.Sync, whose processor is processValidated)
+	sy := r.Rng.Intn(2) == 0
+	if sy {
+		n.Exec.VerifC04SetSyncing(true)
+	}
 	err := n.ProcessValidated(b, removeTemp)
+	if sy && n.Exec != nil {
+		n.Exec.VerifC04SetSyncing(false)
+	}
 	evs := n.DrainEvents()
 	ok := err == nil && bytes.Equal(n.Tip().Header.ID, b.Header.ID) && !bytes.Equal(tipBefore, b.Header.ID)
 	exec := EmptyExec("")
@@ -290,7 +300,7 @@ func (r *Recorder) PV(b *blockchain.Block, removeTemp bool) bool {
 		r.remember(b)
 	}
 	r.tag("pv:" + b2s(ok))
-	r.Ops = append(r.Ops, fmt.Sprintf("pv valid=%s rt=%s %s %s", b2s(ok), b2s(removeTemp), BlockTokens(b), exec))
+	r.Ops = append(r.Ops, fmt.Sprintf("pv valid=%s rt=%s sy=%s %s %s", b2s(ok), b2s(removeTemp), b2s(sy), BlockTokens(b), exec))
 	return ok
 }
 
@@ -309,7 +319,7 @@ func (r *Recorder) Extend(k int) {
 			r.Err = err
 			return
 		}
-		if r.Rng.Intn(8) == 0 {
+		if r.Rng.Intn(5) == 0 {
 			r.PV(b, r.Rng.Intn(2) == 0)
 		} else {
 			r.Proc(b)
@@ -527,14 +537,18 @@ func (r *Recorder) Delete(k int, mode int) {
 }
 
 // DeleteFinalized asks for the deletion of a block at or below the finalized height.
-func (r *Recorder) DeleteFinalized() {
+func (r *Recorder) DeleteFinalized() { r.deleteFinalized(false) }
+
+// deleteFinalized: exact = the block at the finalized height itself (the only finalized block whose
+// state diff is still stored, i.e. the one a missing guard would really remove).
+func (r *Recorder) deleteFinalized(exact bool) {
 	n := r.N
 	if n.Tip() == nil {
 		return
 	}
 	fin := n.Finalized()
 	h := fin
-	if fin > 0 && r.Rng.Intn(2) == 0 {
+	if !exact && fin > 0 && r.Rng.Intn(2) == 0 {
 		h = uint32(r.Rng.Intn(int(fin) + 1))
 	}
 	b, err := n.BlockAt(h)
@@ -549,7 +563,11 @@ func (r *Recorder) DeleteFinalized() {
 }
 
 // Till runs deleteTillCommonBlock with a common block between fin-2 and the tip.
-func (r *Recorder) Till() {
+func (r *Recorder) Till() { r.till(false) }
+
+// till: below = the common block is (if possible) below the finalized height: the run must stop at the
+// finalized block.
+func (r *Recorder) till(below bool) {
 	n := r.N
 	if n.Tip() == nil {
 		return
@@ -560,6 +578,9 @@ func (r *Recorder) Till() {
 		lo = 0
 	}
 	h := uint32(lo + r.Rng.Intn(int(n.Height())-lo+1))
+	if below && fin > lo {
+		h = uint32(lo + r.Rng.Intn(fin-lo))
+	}
 	kind := "fast"
 	if r.Rng.Intn(2) == 0 {
 		kind = "block"
@@ -606,12 +627,68 @@ func (r *Recorder) Till() {
 }
 
 func (r *Recorder) Restart() {
+	r.restartOnly()
+	if r.Err == nil && r.Rng.Intn(3) != 0 {
+		r.Guards(false)
+	}
+}
+
+func (r *Recorder) restartOnly() {
 	if err := r.N.Restart(); err != nil {
 		r.Err = err
 	}
 	r.N.DrainEvents()
 	r.tag("restart")
 	r.Ops = append(r.Ops, "restart")
+}
+
+// SyncCtx asks the executer for the context it would hand to the synchronisers.
+func (r *Recorder) SyncCtx() {
+	if r.N.Tip() == nil {
+		return
+	}
+	r.tag("sctx")
+	r.Ops = append(r.Ops, "sctx")
+}
+
+// Guards evaluates the guards of the property on the node as it is - called directly after a restart,
+// before the new Executer object has applied anything: whatever the guards read must come from the
+// database, not from memory of the previous run. reverting = also run deleteTillCommonBlock with a
+// common block below the finalized height (it removes the unfinalized blocks).
+func (r *Recorder) Guards(reverting bool) {
+	if r.N == nil || r.N.Tip() == nil {
+		return
+	}
+	r.tag("restart-guards")
+	k := 4
+	if reverting {
+		k = 6
+	}
+	switch r.Rng.Intn(k) {
+	case 0:
+		r.SyncCtx()
+	case 1:
+		r.deleteFinalized(true)
+	case 2:
+		r.SyncCtx()
+		r.deleteFinalized(r.Rng.Intn(2) == 0)
+	case 3:
+		r.deleteFinalized(r.Rng.Intn(2) == 0)
+		r.SyncCtx()
+	default:
+		if r.Rng.Intn(2) == 0 {
+			r.SyncCtx()
+		}
+		r.till(true)
+	}
+}
+
+// RestartProbe is a restart followed directly by the guard probes (every time).
+func (r *Recorder) RestartProbe() {
+	r.restartOnly()
+	if r.Err == nil {
+		r.Guards(true)
+	}
 }
 
 // ValidatorChange applies a block that replaces validator 0 by the extra key holder.
@@ -703,14 +780,22 @@ func (r *Recorder) Script() {
 			}
 			continue
 		}
+		if p.RestartBias > 0 && rng.Float64() < p.RestartBias {
+			r.RestartProbe()
+			if n.Tip() == nil {
+				continue
+			}
+		}
 		x := rng.Float64() * (3 + p.DeleteBias + p.ForkBias)
 		switch {
 		case x < 1.6:
 			r.Extend(1 + rng.Intn(3))
 		case x < 2.0:
-			switch rng.Intn(5) {
+			switch rng.Intn(6) {
 			case 0:
-				r.Restart()
+				r.RestartProbe()
+			case 5:
+				r.SyncCtx()
 			case 1:
 				r.DeleteFinalized()
 			case 2:
@@ -767,7 +852,7 @@ func Record(rng *rand.Rand, prof Profile) (ops []string, tag string, err error) 
 		r.Script()
 	}()
 	var tags []string
-	for _, t := range []string{"proc:tieBreakApplied", "proc:tieBreakReverted", "proc:doubleForging", "cache-exhausted", "validator-change", "dup-tx", "till:below-fin", "restore-temps", "reorg", "reapply"} {
+	for _, t := range []string{"proc:tieBreakApplied", "proc:tieBreakReverted", "proc:doubleForging", "cache-exhausted", "validator-change", "dup-tx", "till:below-fin", "restore-temps", "reorg", "reapply", "restart-guards"} {
 		if r.Tags[t] > 0 {
 			tags = append(tags, strings.TrimPrefix(t, "proc:"))
 		}
